@@ -287,6 +287,8 @@ class Composed(Prose):
                 lines.append(indent(t, not lines) + ' '.join(
                     t.choice(VOCAB) if t.chance(64) else (pools.numeric_ref(t) + t.choice(['', 'x', '.'])) if t.chance(24) else compose_token(t)
                     for _ in range(1 + t.below(6))))
+            if t.chance(12):
+                lines[0] = indent(t, True) + label_colon_line(t)
             yield {'lines': lines}
 
 
